@@ -130,3 +130,34 @@ Fixpoint switch_result (val : enc) (cases : list (enc * enc)) (defval : option e
   | (k, v) :: r => if mw_equal (codes (strip_i k)) (codes val) then strip_i v
                    else switch_result val r (if str_eqb (lower (codes (strip_i k))) s_default then Some v else defval)
   end.
+
+(** Calls inside arguments (C04: "arguments are expanded in the caller's frame").  An argument of the outer call is text
+    and flat calls; a named argument has a plain name.  The value bound is the argument with every call in it replaced
+    by that call's result - computed where the argument stands, not inside the outer template's body. *)
+Definition nested_arg_ok (pfnames : list str) (lib : list tpl) (outer : str) (a : enc) : bool :=
+  let items_ok := fun (e : enc) =>
+    forallb (fun i => flat_item pfnames lib i &&
+                      match i with T (n :: _) => negb (str_eqb (codes n) outer) | _ => true end) e in
+  match split_named_i a with
+  | Some (k, v) => plain k && items_ok v
+  | None => items_ok a
+  end.
+Fixpoint bind_nested (lib : list tpl) (args : list enc) (num : N) (ht : argmap) : argmap :=
+  match args with
+  | [] => ht
+  | a :: rest =>
+    match split_named_i a with
+    | Some (kname, v) => bind_nested lib rest num (am_set ht (name_key kname) (strip_i (page_result lib v)))
+    | None => bind_nested lib rest (num + 1) (am_set ht (KInt num) (page_result lib a))
+    end
+  end.
+Definition nested_result (lib : list tpl) (name : str) (args : list enc) : enc :=
+  match find_tpl lib name with
+  | None => chars (missing_tpl name)
+  | Some t => add_newline (code_subst (bind_nested lib args 1 []) (t_body t))
+  end.
+Definition nested_ok (pfnames : list str) (lib : list tpl) (name : str) (args : list enc) : bool :=
+  str_eqb (codes (strip_i (chars name))) name && negb (existsb (N.eqb 58) name) &&
+  match classify_pf pfnames (canon_pf pfnames name) with PfNone => true | _ => false end &&
+  forallb (nested_arg_ok pfnames lib name) args &&
+  match find_tpl lib name with Some t => flat_body (t_body t) | None => true end.
